@@ -386,9 +386,7 @@ func TestSettingsLog(t *testing.T) {
 		if err := json.Unmarshal(raw, &r); err != nil || len(r.Ops) == 0 {
 			t.Skip("replay object is not a settings-log behaviour")
 		}
-		for i := range r.Ops { // the stored expectations already carry the obj- prefix
-			_ = i
-		}
+		// (the stored expectations already carry the obj- prefix)
 		if err := runLog(e, r.Ops, r.Reverse, rep); err != nil {
 			t.Fatal(err)
 		}
